@@ -38,8 +38,11 @@ def write_evidence(ctx, mod, report, wall, n_new, known):
         "wall_s": round(float(wall), 2),
         "violations": int(n_new),
     }
-    os.makedirs("/verif/evidence", exist_ok=True)
-    path = "/verif/evidence/%s.json" % ctx.pid
+    # evidence under /verif/evidence describes /repo itself; runs of my own tooling against a scratch tree
+    # (VERIF_REPO, seeded changes / reverts) are filed separately and never committed
+    edir = "/verif/evidence" if os.path.realpath(ctx.repo) == "/repo" else "/verif/evidence/.scratch"
+    os.makedirs(edir, exist_ok=True)
+    path = "%s/%s.json" % (edir, ctx.pid)
     tmp = path + ".tmp"
     with open(tmp, "w") as fh:
         json.dump(doc, fh, indent=1, default=str)
